@@ -506,8 +506,12 @@ coap_cancel_observe_lkd(coap_session_t *session, coap_binary_t *token,
                                                   lg_crcv->o_blk_size),
                              buf);
         }
-        if (coap_get_data(&lg_crcv->pdu, &size, &data))
-          coap_add_data_large_request_lkd(session, pdu, size, data, NULL, NULL);
+        if (coap_get_data(&lg_crcv->pdu, &size, &data) &&
+            !coap_add_data_large_request_lkd(session, pdu, size, data, NULL, NULL)) {
+          /* without its body the FETCH would not be the observed request */
+          coap_delete_pdu(pdu);
+          return 0;
+        }
 
         /*
          * Need to fix lg_xmit stateless token as using tokens from
